@@ -2,14 +2,17 @@
    Only statements live here; the counting functions are in Spec/StatsSpec.v and the
    proofs in Proofs/StatsProofs.v.
 
-   Histories start from [new_level p] and contain no rebuild (a rebuild creates a new
-   level object with fresh statistics).  [h := combine ops outs] is the list of
+   Histories start from [new_level p].  The first block of theorems is for histories that
+   contain no rebuild; the block "across rebuilds" below covers every history, rebuilds of the
+   level from its own snapshot or serialized form included (a rebuild creates a new level
+   object with fresh statistics, so the counters describe the events since the last rebuild).  [h := combine ops outs] is the list of
    (operation, outcome) events.  The statistics are wrapping 64-bit counters which the
    level never reads back, so the general statement is a congruence modulo W = 2^64; the
    exact statements follow when the true sums fit in 64 bits.  Only the identity part of
    the per-order interface ([I_id], implied by [I_cons]) is needed. *)
 From PL Require Import Model.Level Spec.Hist Spec.StatsSpec
-  Proofs.OrderProofs Proofs.BaseLemmas Proofs.LevelInv Proofs.StatsProofs.
+  Proofs.OrderProofs Proofs.BaseLemmas Proofs.LevelInv Proofs.StatsProofs Proofs.StatsRebuildProofs.
+From PL Require Proofs.RebuildProofs.
 Local Open Scope N_scope.
 
 Theorem C15_I_cons_I_id : forall mf, I_cons mf -> I_id mf.
@@ -115,6 +118,73 @@ Theorem C15_value_executed_const :
     value_executed pm h = p * qty_executed h.
 Proof. exact value_executed_const. Qed.
 
+(* ---------------- across rebuilds ----------------
+   Histories WITH rebuilds ([ORebuildSnap listing]: from_snapshot / From<&Snapshot> / package;
+   [ORebuildData listing]: serde data form and Display/FromStr, i.e. new + add_order per listed
+   order).  [since_rebuild h] is the suffix of the history after its last rebuild event (all of
+   [h] when there is none), [before_rebuild h] the rest, and [rebuild_base h] what the last
+   rebuild itself recorded as "orders added": the number of listed orders for [ORebuildData],
+   0 for [ORebuildSnap] or no rebuild (Spec/StatsSpec.v). *)
+
+(* the cut is the obvious one *)
+Theorem C15_rebuild_cut :
+  forall h,
+    before_rebuild h ++ since_rebuild h = h /\ has_rebuild (since_rebuild h) = false /\
+    ((has_rebuild h = false /\ before_rebuild h = [] /\ rebuild_base h = 0) \/
+     (exists pre e, has_rebuild h = true /\ before_rebuild h = pre ++ [e] /\ ev_rebuild e = true /\
+                    rebuild_base h = op_readded (fst e))).
+Proof. intros h. exact (conj (cut_rebuild_app h) (conj (since_rebuild_clean h) (before_rebuild_last h))). Qed.
+
+(* general form: no side condition at all; congruences modulo W = 2^64 *)
+Theorem C15_across_rebuilds_mod :
+  forall mf, I_id mf ->
+  forall p g0 ops l g outs,
+    steps mf (new_level p, g0) ops (l, g) outs ->
+    let h := combine ops outs in
+    let hs := since_rebuild h in
+    price l = p /\
+    s_added (st l) = (rebuild_base h + n_added hs) mod W /\
+    s_removed (st l) = n_removed p hs mod W /\
+    s_qty (st l) = qty_executed hs mod W /\
+    (forall pm, s_value (st l) = value_executed (pm_after pm (before_rebuild h)) hs mod W) /\
+    (all_added_at p ops -> s_value (st l) = (qty_executed hs * p) mod W) /\
+    Forall (ev_tx_price p) h.
+Proof. exact stats_rebuild_mod. Qed.
+
+(* all four exactly, when the true sums fit in 64 bits (the hypotheses of C15_sequential, with
+   the re-added orders counted) *)
+Theorem C15_across_rebuilds :
+  forall mf, I_cons mf ->
+  forall p g0 ops l g outs,
+    steps mf (new_level p, g0) ops (l, g) outs ->
+    all_added_at p ops ->
+    let h := combine ops outs in
+    let hs := since_rebuild h in
+    rebuild_base h + n_added hs < W -> n_removed p hs < W -> qty_executed hs < W ->
+    qty_executed hs * p < W ->
+    s_added (st l) = rebuild_base h + n_added hs /\ s_removed (st l) = n_removed p hs /\
+    s_qty (st l) = qty_executed hs /\ s_value (st l) = qty_executed hs * p.
+Proof. intros mf H p g0 ops l g outs. exact (stats_rebuild_exact mf p g0 ops l g outs (I_cons_I_id mf H)). Qed.
+
+Theorem C15_across_rebuilds_match_against :
+  forall p g0 ops l g outs,
+    steps match_against (new_level p, g0) ops (l, g) outs ->
+    all_added_at p ops ->
+    let h := combine ops outs in
+    let hs := since_rebuild h in
+    rebuild_base h + n_added hs < W -> n_removed p hs < W -> qty_executed hs < W ->
+    qty_executed hs * p < W ->
+    s_added (st l) = rebuild_base h + n_added hs /\ s_removed (st l) = n_removed p hs /\
+    s_qty (st l) = qty_executed hs /\ s_value (st l) = qty_executed hs * p.
+Proof. intros p g0 ops l g outs. exact (stats_rebuild_exact match_against p g0 ops l g outs match_against_I_id). Qed.
+
+(* on a history without a rebuild the statement across rebuilds is C15_sequential's *)
+Theorem C15_across_rebuilds_no_rebuild :
+  forall ops outs, no_rebuild ops = true ->
+    since_rebuild (combine ops outs) = combine ops outs /\ rebuild_base (combine ops outs) = 0 /\
+    before_rebuild (combine ops outs) = [].
+Proof. exact stats_rebuild_no_rebuild. Qed.
+
 (* ---------------- non-vacuity ---------------- *)
 
 Definition ex_o1 : order := Iceberg (mkCommon (Uuid 1) 100 Sell 1 Gtc) 10 25.
@@ -175,6 +245,63 @@ Proof.
     repeat constructor.
 Qed.
 
+(* A history with both kinds of rebuild: add, add, match, rebuild from the snapshot (counters
+   restart at 0/0/0/0), add, read, rebuild from the data form (three listed orders re-added:
+   3/0/0/0), then a cancel and a match.  The listings are the level's own. *)
+Definition ex_o1' : order := Iceberg (mkCommon (Uuid 1) 100 Sell 1 Gtc) 6 25.
+
+Definition ex_rb_ops : list op :=
+  [OAdd ex_o1; OAdd ex_o2; OMatch 4 (Uuid 50);
+   ORebuildSnap [ex_o1'; ex_o2];
+   OAdd ex_o3; ORead;
+   ORebuildData [ex_o1'; ex_o2; ex_o3];
+   OUpdate (Cancel (Uuid 2)); OMatch 9 (Uuid 51)].
+
+Ltac ex_listing :=
+  match goal with
+  | |- listing_of ?l ?L =>
+      let H := fresh in
+      assert (H : to_vec (lq l) = L) by (vm_compute; reflexivity);
+      rewrite <- H; apply RebuildProofs.to_vec_listing
+  end.
+Ltac ex_rebuild_snap := eapply steps_cons; [ exact I | apply SRebuildSnap; ex_listing | ex_fits | ].
+Ltac ex_rebuild_data := eapply steps_cons; [ exact I | apply SRebuildData; ex_listing | ex_fits | ].
+
+Example C15_rebuild_history_example :
+  exists l g outs,
+    steps match_against (new_level 100, 0) ex_rb_ops (l, g) outs /\
+    no_rebuild ex_rb_ops = false /\ all_added_at 100 ex_rb_ops /\
+    let h := combine ex_rb_ops outs in
+    length (since_rebuild h) = 2%nat /\ length (before_rebuild h) = 7%nat /\ rebuild_base h = 3 /\
+    n_added (since_rebuild h) = 0 /\ n_removed 100 (since_rebuild h) = 1 /\
+    qty_executed (since_rebuild h) = 9 /\
+    n_added h = 3 /\ qty_executed h = 13 /\       (* the whole history: NOT what is reported *)
+    s_added (st l) = 3 /\ s_removed (st l) = 1 /\ s_qty (st l) = 9 /\ s_value (st l) = 900.
+Proof.
+  eexists. eexists. eexists. split; [|split; [reflexivity|split]].
+  - unfold ex_rb_ops.
+    ex_add. ex_add. ex_match. ex_rebuild_snap. ex_add. ex_read. ex_rebuild_data. ex_update. ex_match.
+    apply steps_nil.
+  - intros o Hin. cbn in Hin.
+    repeat (destruct Hin as [Hin|Hin]; [try discriminate; inversion Hin; reflexivity|]).
+    contradiction.
+  - vm_compute. repeat split.
+Qed.
+
+(* the same history stopped after the read: the last rebuild is the one from the snapshot *)
+Example C15_rebuild_snap_example :
+  exists l g outs,
+    steps match_against (new_level 100, 0) (firstn 6 ex_rb_ops) (l, g) outs /\
+    let h := combine (firstn 6 ex_rb_ops) outs in
+    length (since_rebuild h) = 2%nat /\ rebuild_base h = 0 /\ n_added (since_rebuild h) = 1 /\
+    qty_executed h = 4 /\ st l = mkStats 1 0 0 0 0.
+Proof.
+  eexists. eexists. eexists. split.
+  - cbn [firstn ex_rb_ops].
+    ex_add. ex_add. ex_match. ex_rebuild_snap. ex_add. ex_read. apply steps_nil.
+  - vm_compute. repeat split.
+Qed.
+
 Check C15_added : forall mf, I_id mf ->
   forall p g0 ops l g outs,
     steps mf (new_level p, g0) ops (l, g) outs -> no_rebuild ops = true ->
@@ -198,6 +325,29 @@ Check C15_value_general : forall mf, I_id mf ->
     forall pm, value_executed pm (combine ops outs) < W ->
       s_value (st l) = value_executed pm (combine ops outs).
 
+Check C15_across_rebuilds_mod : forall mf, I_id mf ->
+  forall p g0 ops l g outs,
+    steps mf (new_level p, g0) ops (l, g) outs ->
+    let h := combine ops outs in
+    let hs := since_rebuild h in
+    price l = p /\
+    s_added (st l) = (rebuild_base h + n_added hs) mod W /\
+    s_removed (st l) = n_removed p hs mod W /\
+    s_qty (st l) = qty_executed hs mod W /\
+    (forall pm, s_value (st l) = value_executed (pm_after pm (before_rebuild h)) hs mod W) /\
+    (all_added_at p ops -> s_value (st l) = (qty_executed hs * p) mod W) /\
+    Forall (ev_tx_price p) h.
+Check C15_across_rebuilds : forall mf, I_cons mf ->
+  forall p g0 ops l g outs,
+    steps mf (new_level p, g0) ops (l, g) outs ->
+    all_added_at p ops ->
+    let h := combine ops outs in
+    let hs := since_rebuild h in
+    rebuild_base h + n_added hs < W -> n_removed p hs < W -> qty_executed hs < W ->
+    qty_executed hs * p < W ->
+    s_added (st l) = rebuild_base h + n_added hs /\ s_removed (st l) = n_removed p hs /\
+    s_qty (st l) = qty_executed hs /\ s_value (st l) = qty_executed hs * p.
+
 Print Assumptions C15_I_cons_I_id.
 Print Assumptions C15_stats_mod.
 Print Assumptions C15_added.
@@ -212,3 +362,10 @@ Print Assumptions C15_executed_quantity.
 Print Assumptions C15_value_executed_const.
 Print Assumptions C15_history_example.
 Print Assumptions C15_value_off_price_example.
+Print Assumptions C15_rebuild_cut.
+Print Assumptions C15_across_rebuilds_mod.
+Print Assumptions C15_across_rebuilds.
+Print Assumptions C15_across_rebuilds_match_against.
+Print Assumptions C15_across_rebuilds_no_rebuild.
+Print Assumptions C15_rebuild_history_example.
+Print Assumptions C15_rebuild_snap_example.
